@@ -315,7 +315,7 @@ def _shortcut(reg):
         reg.prove("%s._loops.shortcut.single_point_with_weight_one" % PROP, pc + [jq >= 0, jq < nq],
                   z3.And(out.at(jq) == F(jq), out.at(nq) == 1, out.at(nq + 1) == z3.Real("volume"),
                          out.at(nq + 2) == z3.Real("shell"), out.at(nq + 3) == z3.Real("radius_eff")),
-                  function=fn)
+                  function=fn, replay=lambda m=None: replay_loops())
     Interp(reg).run_paths(body)
     reg.notes.append("num_active == 0 shortcut: cutoff >= 1 and invalid nominal points are not excluded by the "
                      "Python path (the C kernel returns zero sums there); outside the property's quantifier "
@@ -333,13 +333,19 @@ def _validation(reg):
     for nshape in (1, 2):
         for present in itertools.product((False, True), repeat=3):
             ang = [nm for nm, pr in zip(names, present) if pr]
-            for order in set(itertools.permutations(ang)):
-                for pos in range(nshape + 1):
+            # every interleaving of the angles with the shape parameters (the angles need not be contiguous: a shape
+            # parameter between phi and psi is ill-formed too), shape parameters kept in their own order
+            shape_names = ["r%d" % k for k in range(nshape)]
+            layouts = set()
+            for perm in itertools.permutations(shape_names + ang):
+                if [x for x in perm if x in shape_names] == shape_names:
+                    layouts.add(perm)
+            for layout in sorted(layouts):
+                for _once in (0,):
                     for wrong_type in [None] + ang:
-                        pars = [Parameter("r%d" % k, "Ang", 10.0, (0, 100), "volume") for k in range(nshape)]
-                        angs = [Parameter(a, "degrees", 0.0, (-360, 360),
-                                          "" if a == wrong_type else "orientation") for a in order]
-                        table = pars[:pos] + angs + pars[pos:]
+                        table = [Parameter(nm, "Ang", 10.0, (0, 100), "volume") if nm in shape_names else
+                                 Parameter(nm, "degrees", 0.0, (-360, 360), "" if nm == wrong_type else "orientation")
+                                 for nm in layout]
                         ncases += 1
                         ids = [p_.name for p_ in table]
                         th = ids.index("theta") if "theta" in ids else -1
@@ -363,8 +369,8 @@ def _validation(reg):
                        "call": "ParameterTable(%r)" % (bad[0]["table"],)}, function=fn, kind="bounded")
     else:
         reg.passed(oid, function=fn, kind="bounded", backend="run-time contract",
-                   seconds=time.time() - t0, bound="%d enumerated tables (1-2 shape parameters, every subset, order, "
-                                                   "position and mistyping of theta/phi/psi)" % ncases)
+                   seconds=time.time() - t0, bound="%d enumerated tables (1-2 shape parameters, every subset of theta/phi/psi in every "
+                                                   "interleaving with them, each mistyping)" % ncases)
 
 
 
@@ -525,11 +531,12 @@ def replay_loops():
         ([50.0, 5.0, 2.0], [(1, np.array([60.0, 20.0, 45.0, 10.0]), np.array([0.1, 0.4, 0.3, 0.2]))], 0.0),
         ([50.0, 5.0, 2.0], [(0, np.array([2.0, 30.0, 50.0]), np.array([0.2, 0.5, 0.3])),
                             (1, np.array([40.0, 1.0, 25.0, 3.0]), np.array([0.25, 0.25, 0.3, 0.2]))], 0.07),
+        ([50.0, 5.0, 2.0], [], 0.0),          # no active dispersity: the single-point shortcut
     ]
     for centre, disp, cutoff in cases:
         npars = len(centre)
-        pd_val = np.hstack([v for _, v, _ in disp])
-        pd_wt = np.hstack([w for _, _, w in disp])
+        pd_val = np.hstack([v for _, v, _ in disp]) if disp else np.zeros(0)
+        pd_wt = np.hstack([w for _, _, w in disp]) if disp else np.zeros(0)
         values = np.hstack(([1.0, 0.0], centre, pd_val, pd_wt))
         d = Details()
         d.num_active = len(disp)
@@ -548,8 +555,9 @@ def replay_loops():
             return c * (r - t) * np.exp(-q * r)
 
         def form_volume():
+            # (shell volume, form volume), the order kernelpy's volume closure uses
             r, t, c = parameters
-            return r ** 3, r ** 3 - (r - t) ** 3
+            return r ** 3 - (r - t) ** 3, r ** 3
 
         def form_radius():
             return parameters[0] + 0.5 * parameters[1]
